@@ -1,8 +1,1328 @@
-use crate::gen_common::Stats;
+//! Archive-level properties: C01, C02, C03, C04, C06, C10, C11, C16.
+use crate::gen_arch::*;
+use crate::gen_common::*;
+use crate::ops::guard_chk;
+use crate::ops2::*;
+use crate::p_codec::{near_tie_class, nearest_e7};
+use crate::proto::*;
 use crate::rng::Rng;
-pub fn gen(_prop: &str, _rng: &mut Rng, _quick: bool, _st: &mut Stats) -> Option<Vec<String>> {
-    None
+use crate::spec::{self, SEntry};
+use crate::streams::Core;
+use pmtiles2::{Compression, Entry};
+use std::collections::{BTreeMap, BTreeSet};
+use std::ops::Bound;
+
+const FULL: Range = (Bound::Unbounded, Bound::Unbounded);
+
+// ---------------------------------------------------------------------------------------------
+// a reference interpretation of edit ops (the abstract map + settings)
+// ---------------------------------------------------------------------------------------------
+#[derive(Clone, Debug, Default)]
+pub struct Abs {
+    pub tiles: BTreeMap<u64, Vec<u8>>,
+    pub meta: Vec<u8>,
+    pub icomp: u64,
+    pub tcomp: u64,
+    pub ttype: u64,
+    pub zooms: [u8; 3],
+    pub coords: [f64; 6],
 }
-pub fn run_chk(_toks: &[&str]) -> Option<String> {
-    None
+impl Abs {
+    pub fn new() -> Self {
+        Abs { meta: b"{}".to_vec(), icomp: 2, ..Default::default() }
+    }
+    /// applies a pure edit op (a, r, c, m, h); returns false for anything else
+    pub fn apply(&mut self, o: &str) -> bool {
+        let f: Vec<&str> = o.split(':').collect();
+        match f.as_slice() {
+            ["a", id, d] => {
+                let d = unhex_bytes(d);
+                if !d.is_empty() {
+                    self.tiles.insert(unhex_u64(id), d);
+                }
+            }
+            ["r", id] => {
+                self.tiles.remove(&unhex_u64(id));
+            }
+            ["c", c] => self.icomp = comp_code(parse_comp(c)),
+            ["m", m] => self.meta = unhex_bytes(m),
+            ["h", tt, tc, minz, maxz, cz, f1, f2, f3, f4, f5, f6] => {
+                self.ttype = unhex_u64(tt);
+                self.tcomp = unhex_u64(tc);
+                self.zooms = [unhex_u64(minz) as u8, unhex_u64(maxz) as u8, unhex_u64(cz) as u8];
+                self.coords = [parse_f64(f1), parse_f64(f2), parse_f64(f3), parse_f64(f4), parse_f64(f5), parse_f64(f6)];
+            }
+            _ => return false,
+        }
+        true
+    }
+}
+
+fn apply_ops(st: &mut St, ops: &[&str]) -> Result<(), String> {
+    for o in ops {
+        let f: Vec<&str> = o.split(':').collect();
+        match f.as_slice() {
+            ["a", id, d] => {
+                let (id, d) = (unhex_u64(id), unhex_bytes(d));
+                let empty = d.is_empty();
+                let r = match st {
+                    St::S(p) => p.add_tile(id, d),
+                    St::A(p) => p.add_tile(id, d),
+                };
+                if r.is_err() != empty {
+                    return Err(format!("add_tile({id}) returned {r:?}"));
+                }
+            }
+            ["r", id] => match st {
+                St::S(p) => p.remove_tile(unhex_u64(id)),
+                St::A(p) => p.remove_tile(unhex_u64(id)),
+            },
+            ["c", c] => match st {
+                St::S(p) => p.internal_compression = parse_comp(c),
+                St::A(p) => p.internal_compression = parse_comp(c),
+            },
+            ["m", _] | ["h", ..] => {
+                // reuse the history runner's setters through a one-op history is not possible (state);
+                // set directly
+                set_setting(st, &f);
+            }
+            _ => return Err(format!("unsupported op {o}")),
+        }
+    }
+    Ok(())
+}
+fn set_setting(st: &mut St, f: &[&str]) {
+    macro_rules! both {
+        ($p:ident => $e:expr) => {
+            match st {
+                St::S($p) => $e,
+                St::A($p) => $e,
+            }
+        };
+    }
+    match f {
+        ["m", m] => {
+            let v: serde_json::Value = serde_json::from_slice(&unhex_bytes(m)).expect("meta json");
+            let serde_json::Value::Object(map) = v else { panic!("meta must be an object") };
+            both!(p => p.meta_data = map);
+        }
+        ["h", tt, tc, minz, maxz, cz, f1, f2, f3, f4, f5, f6] => {
+            let z = |s: &str| u8::try_from(unhex_u64(s)).expect("zoom");
+            both!(p => {
+                p.tile_type = ttype_of_code(unhex_u64(tt));
+                p.tile_compression = comp_of_code(unhex_u64(tc));
+                p.min_zoom = z(minz);
+                p.max_zoom = z(maxz);
+                p.center_zoom = z(cz);
+                p.min_longitude = parse_f64(f1);
+                p.min_latitude = parse_f64(f2);
+                p.max_longitude = parse_f64(f3);
+                p.max_latitude = parse_f64(f4);
+                p.center_longitude = parse_f64(f5);
+                p.center_latitude = parse_f64(f6);
+            });
+        }
+        _ => panic!("setting"),
+    }
+}
+fn write_bytes(st: St) -> Result<Vec<u8>, String> {
+    let (r, core) = write_to(st, Core::new(Vec::new(), 0));
+    match r {
+        Err(_) => Err("to_writer panicked".into()),
+        Ok(Err(e)) => Err(format!("to_writer failed: {e}")),
+        Ok(Ok(())) => Ok(core.data),
+    }
+}
+fn reopen(asy: bool, b: Vec<u8>, rg: Range) -> Result<St, String> {
+    match std::panic::catch_unwind(std::panic::AssertUnwindSafe(|| open(asy, b, rg))) {
+        Err(_) => Err("opening panicked".into()),
+        Ok(Err(e)) => Err(format!("opening failed: {e}")),
+        Ok(Ok(s)) => Ok(s),
+    }
+}
+fn sorted_ids(st: &St) -> Vec<u64> {
+    let mut v: Vec<u64> = match st {
+        St::S(p) => p.tile_ids().into_iter().copied().collect(),
+        St::A(p) => p.tile_ids().into_iter().copied().collect(),
+    };
+    v.sort_unstable();
+    v
+}
+fn count(st: &St) -> usize {
+    match st {
+        St::S(p) => p.num_tiles(),
+        St::A(p) => p.num_tiles(),
+    }
+}
+fn get(st: &mut St, id: u64) -> Result<Option<Vec<u8>>, String> {
+    match get_by_id(st, id) {
+        Err(_) => Err(format!("get_tile_by_id({id}) panicked")),
+        Ok(Err(e)) => Err(format!("get_tile_by_id({id}) failed: {e}")),
+        Ok(Ok(v)) => Ok(v),
+    }
+}
+/// ids worth probing that are not in the map
+fn absent_ids(keys: &BTreeSet<u64>) -> Vec<u64> {
+    let mut v = vec![0u64, 1, BASE32 - 1, BASE32, u64::MAX];
+    for k in keys.iter().take(50).chain(keys.iter().rev().take(50)) {
+        v.push(k.wrapping_add(1));
+        v.push(k.wrapping_sub(1));
+    }
+    v.retain(|x| !keys.contains(x));
+    v.sort_unstable();
+    v.dedup();
+    v
+}
+fn compare_content(st: &mut St, want: &BTreeMap<u64, Vec<u8>>, what: &str) -> Result<(), String> {
+    let ids = sorted_ids(st);
+    let keys: Vec<u64> = want.keys().copied().collect();
+    if ids != keys {
+        let missing: Vec<&u64> = keys.iter().filter(|k| !ids.contains(k)).take(3).collect();
+        let extra: Vec<&u64> = ids.iter().filter(|k| !want.contains_key(k)).take(3).collect();
+        return Err(format!("{what}: tile id set differs: {} ids instead of {} (missing e.g. {missing:?}, unexpected e.g. {extra:?})", ids.len(), keys.len()));
+    }
+    if count(st) != want.len() {
+        return Err(format!("{what}: num_tiles() = {} but {} tiles expected", count(st), want.len()));
+    }
+    for (id, c) in want {
+        match get(st, *id)? {
+            Some(b) if &b == c => {}
+            Some(b) => return Err(format!("{what}: content of tile {id} changed ({} bytes instead of {})", b.len(), c.len())),
+            None => return Err(format!("{what}: tile {id} is listed but cannot be fetched")),
+        }
+    }
+    let keyset: BTreeSet<u64> = want.keys().copied().collect();
+    for id in absent_ids(&keyset) {
+        if get(st, id)?.is_some() {
+            return Err(format!("{what}: tile {id} was never added but a tile is returned"));
+        }
+    }
+    Ok(())
+}
+fn compare_settings(st: &St, a: &Abs, quantize: bool) -> Result<(), String> {
+    let tok = hdr_tok(st);
+    let f: Vec<&str> = tok[1..].split(':').collect();
+    let want_int = [a.ttype, a.tcomp, a.icomp, u64::from(a.zooms[0]), u64::from(a.zooms[1]), u64::from(a.zooms[2])];
+    for k in 0..6 {
+        if unhex_u64(f[k]) != want_int[k] {
+            return Err(format!("header setting #{k} came back as {} instead of {}", f[k], want_int[k]));
+        }
+    }
+    for k in 0..6 {
+        let got = parse_f64(f[6 + k]);
+        let d = a.coords[k];
+        if !quantize {
+            if got.to_bits() != d.to_bits() && !(got.is_nan() && d.is_nan()) {
+                return Err(format!("coordinate {k} is {got:e} instead of {d:e}"));
+            }
+            continue;
+        }
+        if let Some(v) = nearest_e7(d) {
+            let ok = v.iter().any(|i| *i >= i64::from(i32::MIN) && *i <= i64::from(i32::MAX) && (f64::from(*i as i32) / 1e7).to_bits() == got.to_bits() || (*i == 0 && got == 0.0));
+            let sat = v.iter().all(|i| *i > i64::from(i32::MAX)) || v.iter().all(|i| *i < i64::from(i32::MIN));
+            if !ok && !sat {
+                if near_tie_class(d) {
+                    return Err(format!("NEARTIE coordinate {d:e} came back as {got:e} but the nearest multiple of 1e-7 is {:?}e-7 (double rounding at a half-step tie)", v));
+                }
+                return Err(format!("coordinate {d:e} came back as {got:e} but the nearest multiple of 1e-7 is {:?}e-7", v));
+            }
+        }
+    }
+    if unhex_bytes(f[12]) != a.meta {
+        return Err(format!("metadata came back as {:?} instead of {:?}", String::from_utf8_lossy(&unhex_bytes(f[12])), String::from_utf8_lossy(&a.meta)));
+    }
+    Ok(())
+}
+
+fn split_ops(ops: &str) -> Vec<&str> {
+    if ops == "-" {
+        vec![]
+    } else {
+        ops.split(';').collect()
+    }
+}
+fn build(wmode: &str, ops: &str) -> Result<(St, Abs), String> {
+    let mut st = fresh(wmode == "async");
+    let mut abs = Abs::new();
+    let v = split_ops(ops);
+    apply_ops(&mut st, &v)?;
+    for o in &v {
+        abs.apply(o);
+    }
+    Ok((st, abs))
+}
+
+// ---------------------------------------------------------------------------------------------
+// C01 / C02
+// ---------------------------------------------------------------------------------------------
+fn chk_roundtrip(wmode: &str, rmode: &str, ops: &str) -> Result<(), String> {
+    let (st, abs) = build(wmode, ops)?;
+    let bytes = write_bytes(st)?;
+    let mut back = reopen(rmode == "async", bytes, FULL)?;
+    compare_content(&mut back, &abs.tiles, "after write and reopen")?;
+    compare_settings(&back, &abs, true)?;
+    // lookups by coordinates agree with lookups by id
+    for (id, c) in abs.tiles.iter().take(40) {
+        if let Ok((z, x, y)) = pmtiles2::util::zxy(*id) {
+            match get_xyz(&mut back, x, y, z) {
+                Ok(Ok(Some(b))) if &b == c => {}
+                other => return Err(format!("get_tile({x},{y},{z}) for id {id} returned {:?}", other.map(|r| r.map(|o| o.map(|b| b.len())).map_err(|e| e.to_string())).map_err(|_| "panic"))),
+            }
+        }
+    }
+    Ok(())
+}
+fn seeded_ops(seed: u64, n: usize, big: bool, icomp: Option<Compression>) -> String {
+    let mut rng = Rng::new(seed);
+    let mut st = Stats::default();
+    let mut l = gen_logical(&mut rng, n, big, &mut st);
+    if let Some(c) = icomp {
+        l.icomp = c;
+    }
+    let mut ops = settings_ops(&l);
+    ops.extend(add_ops(&l, &mut rng, true));
+    ops.join(";")
+}
+/// distinct, incompressible-ish entries: forces leaf directories for every codec
+fn seeded_spill_ops(seed: u64, n: usize, icomp: Compression) -> String {
+    let mut rng = Rng::new(seed);
+    let mut ops = vec![format!("c:{}", comp_tok(icomp))];
+    let mut id = rng.below(1000);
+    for i in 0..n {
+        let len = 1 + (rng.next() % 3) as usize;
+        let mut c = rng.bytes(len);
+        c.extend_from_slice(&(i as u32).to_le_bytes());
+        ops.push(format!("a:{id:x}:{}", hex_bytes(&c)));
+        id += 1 + rng.spread(if icomp == Compression::None { 3 } else { 30 });
+    }
+    ops.join(";")
+}
+
+fn chk_valid(wmode: &str, ops: &str) -> Result<(), String> {
+    let (st, abs) = build(wmode, ops)?;
+    let bytes = write_bytes(st)?;
+    let v = spec::parse(&bytes, true).map_err(|e| format!("the written archive is not a valid PMTiles v3 file: {e}"))?;
+    if u64::from(v.header.icomp) != abs.icomp {
+        return Err("internal compression code in the header differs from the setting".into());
+    }
+    if !v.header.clustered {
+        return Err("clustered flag not set".into());
+    }
+    let all = spec::all_tiles(&v, 10_000_000)?;
+    let ids: Vec<u64> = all.keys().copied().collect();
+    let want: Vec<u64> = abs.tiles.keys().copied().collect();
+    if ids != want {
+        return Err(format!("the directories address {} tiles, {} were added", ids.len(), want.len()));
+    }
+    // the specification's lookup procedure (sampled when large)
+    let step = (abs.tiles.len() / 3000).max(1);
+    for (k, (id, c)) in abs.tiles.iter().enumerate() {
+        if k % step != 0 && k + 5 < abs.tiles.len() {
+            continue;
+        }
+        match spec::lookup(&bytes, &v.header, *id)? {
+            Some(ol) => {
+                if spec::tile_bytes(&bytes, &v.header, ol)? != &c[..] {
+                    return Err(format!("the specification's lookup of tile {id} returns other bytes than were added"));
+                }
+            }
+            None => return Err(format!("the specification's lookup does not find tile {id}")),
+        }
+    }
+    let keyset: BTreeSet<u64> = abs.tiles.keys().copied().collect();
+    for id in absent_ids(&keyset) {
+        if spec::lookup(&bytes, &v.header, id)?.is_some() {
+            return Err(format!("the specification's lookup finds tile {id}, which was never added"));
+        }
+    }
+    if serde_json::to_vec(&v.meta).unwrap() != abs.meta {
+        return Err("metadata section differs from what was set".into());
+    }
+    if bytes.len() as u64 != v.header.data_off + v.header.data_len {
+        // sections inside the file is checked by parse; trailing bytes are merely noted
+        return Err(format!("the file has {} bytes but the tile data section ends at {}", bytes.len(), v.header.data_off + v.header.data_len));
+    }
+    Ok(())
+}
+
+// ---------------------------------------------------------------------------------------------
+// C10
+// ---------------------------------------------------------------------------------------------
+fn chk_dedup_bytes(bytes: &[u8], want: &BTreeMap<u64, Vec<u8>>) -> Result<(), String> {
+    let v = spec::parse(bytes, true).map_err(|e| format!("written archive invalid: {e}"))?;
+    let distinct: BTreeSet<&Vec<u8>> = want.values().collect();
+    let sum: u64 = distinct.iter().map(|c| c.len() as u64).sum();
+    if v.header.data_len != sum {
+        return Err(format!("tile data section has {} bytes, the distinct contents sum to {sum}", v.header.data_len));
+    }
+    if v.header.contents != distinct.len() as u64 {
+        return Err(format!("num_tile_content {} but {} distinct contents", v.header.contents, distinct.len()));
+    }
+    let all = spec::all_tiles(&v, 10_000_000)?;
+    let mut by_content: BTreeMap<&Vec<u8>, (u64, u32)> = BTreeMap::new();
+    for (id, c) in want {
+        let ol = *all.get(id).ok_or(format!("tile {id} not addressed"))?;
+        if let Some(prev) = by_content.insert(c, ol) {
+            if prev != ol {
+                return Err(format!("identical contents stored at offsets {} and {}", prev.0, ol.0));
+            }
+        }
+    }
+    let mut seen: BTreeMap<(u64, u32), &Vec<u8>> = BTreeMap::new();
+    for (c, ol) in &by_content {
+        if let Some(other) = seen.insert(*ol, c) {
+            if other != *c {
+                return Err("different contents share one (offset, length)".into());
+            }
+        }
+    }
+    for w in v.tile_entries.windows(2) {
+        if w[1].id == w[0].id + u64::from(w[0].run) && w[1].off == w[0].off && w[1].len == w[0].len {
+            return Err(format!("adjacent entries at ids {} and {} could be merged into one run", w[0].id, w[1].id));
+        }
+    }
+    Ok(())
+}
+/// ops may contain saves ("s:w:r") and opens ("o:r:range:hex") so that duplicates exist between
+/// in-memory and reader-backed tiles; probes are ignored
+fn chk_dedup(mode: &str, ops: &str) -> Result<(), String> {
+    let mut st = fresh(mode == "async");
+    let mut abs = Abs::new();
+    for o in split_ops(ops) {
+        let f: Vec<&str> = o.split(':').collect();
+        match f.as_slice() {
+            ["s", _, r] => {
+                let old = std::mem::replace(&mut st, fresh(*r == "a"));
+                let b = write_bytes(old)?;
+                chk_dedup_bytes(&b, &abs.tiles)?;
+                st = reopen(*r == "a", b, FULL)?;
+            }
+            ["o", r, rg, b] => {
+                let bytes = unhex_bytes(b);
+                let v = spec::parse(&bytes, false).map_err(|e| format!("harness: foreign archive invalid: {e}"))?;
+                let all = spec::all_tiles(&v, 1_000_000)?;
+                let range = parse_range(rg);
+                abs = Abs::new();
+                for (id, ol) in all {
+                    if std::ops::RangeBounds::contains(&range, &id) {
+                        abs.tiles.insert(id, spec::tile_bytes(&bytes, &v.header, ol)?.to_vec());
+                    }
+                }
+                st = reopen(*r == "a", bytes, range)?;
+            }
+            ["g", _] | ["l"] | ["n"] | ["p"] | ["q"] => {}
+            _ => {
+                apply_ops(&mut st, &[o])?;
+                abs.apply(o);
+            }
+        }
+    }
+    let b = write_bytes(st)?;
+    chk_dedup_bytes(&b, &abs.tiles)
+}
+
+// ---------------------------------------------------------------------------------------------
+// C04 (+ the retention clause of C10 through the snapshot hook)
+// ---------------------------------------------------------------------------------------------
+fn check_snapshot(st: &St, abs: &Abs) -> Result<(), String> {
+    let s = match st {
+        St::S(p) => p.verif_snapshot(),
+        St::A(p) => p.verif_snapshot(),
+    };
+    // in-memory tiles and their contents
+    let mut used: BTreeMap<u64, BTreeSet<u64>> = BTreeMap::new(); // hash -> ids
+    for (id, t) in &s.tile_by_id {
+        if let Ok(h) = t {
+            used.entry(*h).or_default().insert(*id);
+        }
+        if !abs.tiles.contains_key(id) {
+            return Err(format!("tile_by_id holds id {id} which the map does not"));
+        }
+    }
+    if s.tile_by_id.len() != abs.tiles.len() {
+        return Err("tile_by_id size differs from the map".into());
+    }
+    let stored: BTreeSet<u64> = s.data_by_hash.iter().map(|(h, _)| *h).collect();
+    let live: BTreeSet<u64> = used.keys().copied().collect();
+    if stored != live {
+        let unused = stored.difference(&live).count();
+        let missing = live.difference(&stored).count();
+        return Err(format!("stored contents do not match contents in use: {unused} stored but unreferenced, {missing} referenced but not stored"));
+    }
+    for (h, d) in &s.data_by_hash {
+        for id in &used[h] {
+            if abs.tiles.get(id) != Some(d) {
+                return Err(format!("stored content for id {id} differs from the map"));
+            }
+        }
+    }
+    // one stored copy per distinct content
+    let distinct: BTreeSet<&Vec<u8>> = s.data_by_hash.iter().map(|(_, d)| d).collect();
+    if distinct.len() != s.data_by_hash.len() {
+        return Err("the same content is stored twice".into());
+    }
+    let refs: BTreeMap<u64, BTreeSet<u64>> = s.ids_by_hash.iter().map(|(h, v)| (*h, v.iter().copied().collect())).collect();
+    if refs != used {
+        return Err("reference sets (ids_by_hash) differ from the ids actually using each content".into());
+    }
+    Ok(())
+}
+fn chk_hist_map(mode: &str, ops: &str) -> Result<(), String> {
+    let mut st = fresh(mode == "async");
+    let mut abs = Abs::new();
+    let mut probe: BTreeSet<u64> = BTreeSet::new();
+    for (n, o) in split_ops(ops).into_iter().enumerate() {
+        let f: Vec<&str> = o.split(':').collect();
+        match f.as_slice() {
+            ["s", w, r] => {
+                if (*w == "a") != is_async_state(&st) {
+                    return Err("harness: write family mismatch".into());
+                }
+                let old = std::mem::replace(&mut st, fresh(*r == "a"));
+                let b = write_bytes(old)?;
+                st = reopen(*r == "a", b, FULL)?;
+                // coordinates are quantised by a save; the map semantics do not involve them
+            }
+            ["o", r, rg, b] => {
+                let bytes = unhex_bytes(b);
+                let v = spec::parse(&bytes, false).map_err(|e| format!("harness: foreign archive invalid: {e}"))?;
+                let all = spec::all_tiles(&v, 1_000_000)?;
+                let range = parse_range(rg);
+                abs = Abs::new();
+                for (id, ol) in all {
+                    if std::ops::RangeBounds::contains(&range, &id) {
+                        abs.tiles.insert(id, spec::tile_bytes(&bytes, &v.header, ol)?.to_vec());
+                    }
+                }
+                st = reopen(*r == "a", bytes, range)?;
+            }
+            ["g", id] => {
+                probe.insert(unhex_u64(id));
+            }
+            ["l"] | ["n"] | ["p"] | ["q"] => {}
+            _ => {
+                if let ["a", id, _] | ["r", id] = f.as_slice() {
+                    probe.insert(unhex_u64(id));
+                }
+                apply_ops(&mut st, &[o])?;
+                abs.apply(o);
+            }
+        }
+        // after every operation: listing, count, lookups of every id ever mentioned
+        let ids = sorted_ids(&st);
+        let want: Vec<u64> = abs.tiles.keys().copied().collect();
+        if ids != want {
+            return Err(format!("after op #{n} ({}): listing has {} ids, the map {}", &o[..o.len().min(40)], ids.len(), want.len()));
+        }
+        if count(&st) != want.len() {
+            return Err(format!("after op #{n}: num_tiles() = {} but the map has {}", count(&st), want.len()));
+        }
+        for id in &probe {
+            let got = get(&mut st, *id)?;
+            if got.as_ref() != abs.tiles.get(id) {
+                return Err(format!("after op #{n} ({}): lookup of {id} returns {:?}, the map says {:?}", &o[..o.len().min(40)], got.map(|b| hex_bytes(&b)), abs.tiles.get(id).map(|b| hex_bytes(b))));
+            }
+        }
+        check_snapshot(&st, &abs).map_err(|e| format!("after op #{n} ({}): {e}", &o[..o.len().min(40)]))?;
+    }
+    compare_content(&mut st, &abs.tiles, "at the end of the history")
+}
+
+// ---------------------------------------------------------------------------------------------
+// C03
+// ---------------------------------------------------------------------------------------------
+fn chk_foreign(mode: &str, bytes: &[u8]) -> Result<(), String> {
+    let v = spec::parse(bytes, false).map_err(|e| format!("harness: archive not spec-valid: {e}"))?;
+    let all = spec::all_tiles(&v, 5_000_000)?;
+    let mut st = reopen(mode == "async", bytes.to_vec(), FULL)?;
+    let ids = sorted_ids(&st);
+    let want: Vec<u64> = all.keys().copied().collect();
+    if ids != want {
+        return Err(format!("opened archive lists {} ids, its directories address {}", ids.len(), want.len()));
+    }
+    if count(&st) != want.len() {
+        return Err("num_tiles differs from the addressed tiles".into());
+    }
+    let step = (all.len() / 2000).max(1);
+    for (k, (id, ol)) in all.iter().enumerate() {
+        if k % step != 0 && k + 3 < all.len() {
+            continue;
+        }
+        let wantb = spec::tile_bytes(bytes, &v.header, *ol)?;
+        match get(&mut st, *id)? {
+            Some(b) if b == wantb => {}
+            Some(_) => return Err(format!("tile {id}: bytes differ from tile-data offset + entry offset (+{}, {} bytes)", ol.0, ol.1)),
+            None => return Err(format!("tile {id} is addressed but not returned")),
+        }
+        // the specification's lookup agrees
+        if spec::lookup(bytes, &v.header, *id)? != Some(*ol) {
+            return Err(format!("harness: reference lookup disagrees with the reference walker for {id}"));
+        }
+    }
+    let keyset: BTreeSet<u64> = all.keys().copied().collect();
+    for id in absent_ids(&keyset) {
+        if get(&mut st, id)?.is_some() {
+            return Err(format!("tile {id} is not addressed but a tile is returned"));
+        }
+    }
+    // header settings and metadata as stored
+    let tok = hdr_tok(&st);
+    let f: Vec<&str> = tok[1..].split(':').collect();
+    let h = &v.header;
+    let want_int = [u64::from(h.ttype), u64::from(h.tcomp), u64::from(h.icomp), u64::from(h.minz), u64::from(h.maxz), u64::from(h.cz)];
+    for k in 0..6 {
+        if unhex_u64(f[k]) != want_int[k] {
+            return Err(format!("header field #{k} reported as {} but stored as {}", f[k], want_int[k]));
+        }
+    }
+    for k in 0..6 {
+        if parse_f64(f[6 + k]) != f64::from(h.coords[k]) / 1e7 {
+            return Err(format!("coordinate #{k} reported as {:e} but stored as {}e-7", parse_f64(f[6 + k]), h.coords[k]));
+        }
+    }
+    if unhex_bytes(f[12]) != serde_json::to_vec(&v.meta).unwrap() {
+        return Err("metadata reported differs from the stored object".into());
+    }
+    Ok(())
+}
+fn chk_fixture(name: &str) -> Result<(), String> {
+    let repo = std::env::var("PM_REPO").unwrap_or_else(|_| "/repo".into());
+    let bytes = std::fs::read(format!("{repo}/test/{name}")).map_err(|e| format!("fixture: {e}"))?;
+    let v = spec::parse(&bytes, false).map_err(|e| format!("harness: fixture not spec-valid: {e}"))?;
+    for mode in ["sync", "async"] {
+        let mut st = reopen(mode == "async", bytes.clone(), FULL)?;
+        let total: u64 = v.tile_entries.iter().map(|e| u64::from(e.run)).sum();
+        if count(&st) as u64 != total {
+            return Err(format!("{name}: {} tiles opened, the directories address {total}", count(&st)));
+        }
+        let has_data = v.header.data_off + v.header.data_len <= bytes.len() as u64;
+        let step = (v.tile_entries.len() / 300).max(1);
+        for e in v.tile_entries.iter().step_by(step) {
+            for id in [e.id, e.id + u64::from(e.run) - 1] {
+                if has_data {
+                    let want = spec::tile_bytes(&bytes, &v.header, (e.off, e.len))?;
+                    match get(&mut st, id)? {
+                        Some(b) if b == want => {}
+                        _ => return Err(format!("{name}: tile {id} differs from the bytes its entry addresses")),
+                    }
+                }
+            }
+        }
+    }
+    Ok(())
+}
+fn chk_dir_find(es: &[Entry], id: u64) -> Result<(), String> {
+    let d = pmtiles2::Directory::from(es.to_vec());
+    let want: Vec<&Entry> = es.iter().filter(|e| e.run_length > 0 && e.tile_id <= id && id - e.tile_id < u64::from(e.run_length)).collect();
+    match (d.find_entry_for_tile_id(id), want.first()) {
+        (None, None) => Ok(()),
+        (Some(e), Some(w)) if e == *w => Ok(()),
+        (got, w) => Err(format!("find_entry_for_tile_id({id}) = {got:?}, expected {w:?}")),
+    }
+}
+
+// ---------------------------------------------------------------------------------------------
+// C11
+// ---------------------------------------------------------------------------------------------
+fn chk_partial(mode: &str, rg: Range, bytes: &[u8]) -> Result<(), String> {
+    let asy = mode == "async";
+    let mut full = reopen(asy, bytes.to_vec(), FULL).map_err(|e| format!("harness: full open fails: {e}"))?;
+    let ids = sorted_ids(&full);
+    let mut part = reopen(asy, bytes.to_vec(), rg).map_err(|e| format!("partial open {} fails although the full open succeeds: {e}", range_tok(&rg)))?;
+    let want: Vec<u64> = ids.iter().copied().filter(|i| std::ops::RangeBounds::contains(&rg, i)).collect();
+    let got = sorted_ids(&part);
+    if got != want {
+        let miss: Vec<&u64> = want.iter().filter(|i| !got.contains(i)).take(3).collect();
+        let extra: Vec<&u64> = got.iter().filter(|i| !want.contains(i)).take(3).collect();
+        return Err(format!("partial open {} lists {} ids, the restriction of the full open has {} (missing e.g. {miss:?}, extra e.g. {extra:?})", range_tok(&rg), got.len(), want.len()));
+    }
+    if count(&part) != want.len() {
+        return Err("num_tiles of the partial open differs".into());
+    }
+    let step = (want.len() / 500).max(1);
+    for id in want.iter().step_by(step) {
+        if get(&mut part, *id)? != get(&mut full, *id)? {
+            return Err(format!("tile {id} has different bytes in the partial open"));
+        }
+    }
+    for id in ids.iter().filter(|i| !std::ops::RangeBounds::contains(&rg, *i)).take(20) {
+        if get(&mut part, *id)?.is_some() {
+            return Err(format!("tile {id} lies outside {} but is returned", range_tok(&rg)));
+        }
+    }
+    Ok(())
+}
+fn ranges_for(rng: &mut Rng, pts: &[u64]) -> Vec<Range> {
+    let mut v: Vec<Range> = vec![
+        FULL,
+        (Bound::Unbounded, Bound::Excluded(0)),
+        (Bound::Unbounded, Bound::Included(0)),
+        (Bound::Included(0), Bound::Excluded(0)),
+        (Bound::Excluded(0), Bound::Unbounded),
+        (Bound::Excluded(u64::MAX), Bound::Unbounded),
+        (Bound::Included(u64::MAX), Bound::Included(u64::MAX)),
+        (Bound::Unbounded, Bound::Excluded(u64::MAX)),
+        (Bound::Included(5), Bound::Included(3)),
+        (Bound::Excluded(5), Bound::Excluded(5)),
+        (Bound::Excluded(5), Bound::Excluded(6)),
+    ];
+    let mk = |k: u64, v: u64| match k % 3 {
+        0 => Bound::Included(v),
+        1 => Bound::Excluded(v),
+        _ => Bound::Unbounded,
+    };
+    for (i, p) in pts.iter().enumerate() {
+        for d in [0i64, -1, 1] {
+            let a = p.wrapping_add(d as u64);
+            let other = pts[rng.below(pts.len() as u64) as usize];
+            v.push((mk(rng.next(), a.min(other)), mk(i as u64, a.max(other))));
+            v.push((mk(i as u64, a), mk(rng.next(), other)));
+            v.push((Bound::Unbounded, mk(i as u64 % 2, a)));
+            v.push((mk(i as u64 % 2, a), Bound::Unbounded));
+        }
+    }
+    v
+}
+
+// ---------------------------------------------------------------------------------------------
+// C06
+// ---------------------------------------------------------------------------------------------
+fn to_s(es: &[Entry]) -> Vec<SEntry> {
+    es.iter().map(|e| SEntry { id: e.tile_id, off: e.offset, len: e.length, run: e.run_length }).collect()
+}
+fn chk_spill(mode: &str, c: Compression, start: Option<usize>, pos: u64, es: &[Entry]) -> Result<(), String> {
+    let asy = mode == "async";
+    let pre = vec![0xEEu8; pos as usize];
+    let o = wdirs(asy, c, start, pos, &pre, es).map_err(|e| format!("write_directories failed: {e}"))?;
+    if o.img[..pos as usize] != pre[..] {
+        return Err("bytes before the starting position were modified".into());
+    }
+    let root_len = o.pos - pos;
+    let code = comp_code(c) as u8;
+    let root_raw = &o.img[pos as usize..o.pos as usize];
+    let root = spec::decode_dir(&spec::codec_decompress(code, root_raw)?).map_err(|e| format!("root directory does not decode: {e}"))?;
+    let whole = crate::ops::dir_enc(asy, c, es).map_err(|e| format!("encode: {e}"))?;
+    let want = to_s(es);
+    if whole.len() as u64 <= 16257 {
+        if !o.leaf.is_empty() {
+            return Err(format!("the list fits into {} bytes but a leaf section of {} bytes was written", whole.len(), o.leaf.len()));
+        }
+        if root != want {
+            return Err("the root directory does not hold the original entries".into());
+        }
+        if root_raw != &whole[..] {
+            return Err("root bytes differ from the plain serialisation of the list".into());
+        }
+        return Ok(());
+    }
+    if root_len > 16257 {
+        return Err(format!("root directory is {root_len} bytes (> 16257)"));
+    }
+    if o.leaf.is_empty() {
+        return Err("the list does not fit but no leaf section was written".into());
+    }
+    let mut resolved: Vec<SEntry> = Vec::new();
+    let mut expect_off = 0u64;
+    for p in &root {
+        if p.run != 0 {
+            return Err("the root directory of a spilled list contains a non-pointer entry".into());
+        }
+        if p.off != expect_off {
+            return Err(format!("leaf pointer offset {} but the previous leaves end at {expect_off}", p.off));
+        }
+        let end = p.off + u64::from(p.len);
+        if end > o.leaf.len() as u64 {
+            return Err("leaf pointer reaches outside the leaf section".into());
+        }
+        let leaf = spec::decode_dir(&spec::codec_decompress(code, &o.leaf[p.off as usize..end as usize])?).map_err(|e| format!("leaf does not decode with its exact length: {e}"))?;
+        if leaf.is_empty() || leaf[0].id != p.id {
+            return Err(format!("leaf pointer carries id {} but its leaf starts at {:?}", p.id, leaf.first().map(|e| e.id)));
+        }
+        // exact length: re-encoding the leaf gives exactly these bytes
+        let re = crate::ops::dir_enc(false, c, &leaf.iter().map(|e| Entry { tile_id: e.id, offset: e.off, length: e.len, run_length: e.run }).collect::<Vec<_>>()).map_err(|e| e.to_string())?;
+        if re.len() as u64 != u64::from(p.len) {
+            return Err(format!("leaf pointer length {} but the leaf serialises to {} bytes", p.len, re.len()));
+        }
+        resolved.extend(leaf);
+        expect_off = end;
+    }
+    if expect_off != o.leaf.len() as u64 {
+        return Err(format!("leaf section has {} bytes but the pointers cover {expect_off}", o.leaf.len()));
+    }
+    if resolved != want {
+        return Err(format!("resolving root and leaves gives {} entries, the original list has {}", resolved.len(), want.len()));
+    }
+    // the library's own reader on the assembled bytes
+    let mut img = o.img[..o.pos as usize].to_vec();
+    let leaf_off = img.len() as u64;
+    img.extend_from_slice(&o.leaf);
+    let m = rdirs(asy, c, pos, root_len, leaf_off, FULL, &img).map_err(|e| format!("read_directories on the written bytes failed: {e}"))?;
+    let mut exp: BTreeMap<u64, (u64, u32)> = BTreeMap::new();
+    for e in es {
+        for k in 0..u64::from(e.run_length).min(100_000) {
+            exp.insert(e.tile_id + k, (e.offset, e.length));
+        }
+    }
+    if m != exp {
+        return Err("read_directories on the written root and leaves differs from the expansion of the original entries".into());
+    }
+    Ok(())
+}
+/// entries whose plain encoding takes exactly 4 bytes each (plus leaf pointers never appear)
+fn tiny_entries(n: usize) -> Vec<Entry> {
+    (0..n).map(|i| Entry { tile_id: i as u64 * 2, offset: (i as u64) * 3 % 100, length: 1 + (i % 100) as u32, run_length: 1 }).collect()
+}
+fn entries_for_size(rng: &mut Rng, c: Compression, target: usize, st: &mut Stats) -> Vec<Entry> {
+    // grow a random list until its serialisation reaches `target` bytes (bisect on the count)
+    let full = valid_entries(rng, 40_000, false, false, st);
+    let (mut lo, mut hi) = (0usize, full.len());
+    while lo + 1 < hi {
+        let mid = (lo + hi) / 2;
+        let l = crate::ops::dir_enc(false, c, &full[..mid]).map(|b| b.len()).unwrap_or(usize::MAX);
+        if l < target {
+            lo = mid;
+        } else {
+            hi = mid;
+        }
+    }
+    full[..hi].to_vec()
+}
+
+// ---------------------------------------------------------------------------------------------
+// C16
+// ---------------------------------------------------------------------------------------------
+fn run_to_bytes(mode: &str, ops: &str) -> Result<Vec<u8>, String> {
+    let mut st = fresh(mode == "async");
+    for o in split_ops(ops) {
+        if o.starts_with("s:") {
+            let f: Vec<&str> = o.split(':').collect();
+            let old = std::mem::replace(&mut st, fresh(f[2] == "a"));
+            let b = write_bytes(old)?;
+            st = reopen(f[2] == "a", b, FULL)?;
+        } else {
+            apply_ops(&mut st, &[o])?;
+        }
+    }
+    write_bytes(st)
+}
+fn chk_canonical(mode: &str, a: &str, b: &str) -> Result<(), String> {
+    let x = run_to_bytes(mode, a)?;
+    let y = run_to_bytes(mode, b)?;
+    if x != y {
+        let pos = x.iter().zip(y.iter()).position(|(p, q)| p != q).unwrap_or(x.len().min(y.len()));
+        return Err(format!("two histories reaching the same logical archive serialise differently ({} vs {} bytes, first difference at {pos})", x.len(), y.len()));
+    }
+    Ok(())
+}
+fn chk_rewrite(mode: &str, ops: &str) -> Result<(), String> {
+    let x = run_to_bytes(mode, ops)?;
+    for rmode in ["sync", "async"] {
+        let st = reopen(rmode == "async", x.clone(), FULL)?;
+        if rmode != mode {
+            continue; // codec bytes of the two API families differ; rewrite is compared within one family
+        }
+        let y = write_bytes(st)?;
+        if x != y {
+            let pos = x.iter().zip(y.iter()).position(|(p, q)| p != q).unwrap_or(x.len().min(y.len()));
+            return Err(format!("writing an archive that was just read back changed the bytes ({} vs {} bytes, first difference at {pos})", x.len(), y.len()));
+        }
+    }
+    Ok(())
+}
+fn chk_xproc(mode: &str, ops: &str) -> Result<(), String> {
+    // two fresh OS processes (differently seeded std hash maps) must produce the same bytes
+    let exe = std::env::current_exe().map_err(|e| e.to_string())?;
+    let mut outs = Vec::new();
+    for _ in 0..2 {
+        let o = std::process::Command::new(&exe).args(["bytes", mode, ops]).output().map_err(|e| e.to_string())?;
+        if !o.status.success() {
+            return Err("child process failed".into());
+        }
+        outs.push(o.stdout);
+    }
+    let here = run_to_bytes(mode, ops)?;
+    if outs[0] != outs[1] || hex_bytes(&here).as_bytes() != outs[0].strip_suffix(b"\n").unwrap_or(&outs[0]) {
+        return Err("the same history serialises differently in different processes".into());
+    }
+    Ok(())
+}
+pub fn bytes_cmd(mode: &str, ops: &str) {
+    match run_to_bytes(mode, ops) {
+        Ok(b) => println!("{}", hex_bytes(&b)),
+        Err(e) => {
+            eprintln!("{e}");
+            std::process::exit(1)
+        }
+    }
+}
+/// a history with detours that ends in the logical archive `l`
+fn detour_ops(l: &Logical, rng: &mut Rng, mode: &str) -> Vec<String> {
+    let m = &mode[..1];
+    let mut ops: Vec<String> = Vec::new();
+    let ids: Vec<u64> = l.tiles.keys().copied().collect();
+    // wrong contents first, extra tiles that are removed again, a save in the middle
+    for id in ids.iter().take(ids.len() / 2) {
+        ops.push(format!("a:{id:x}:{}", hex_bytes(&rng.bytes_range(1, 9))));
+    }
+    for k in 0..3u64 {
+        ops.push(format!("a:{:x}:0f0f", BASE32 - 2 - k));
+    }
+    if rng.chance(1, 2) {
+        ops.push(format!("c:{}", comp_tok(ALL_COMP[rng.below(4) as usize])));
+        ops.push(format!("s:{m}:{m}"));
+    }
+    for k in 0..3u64 {
+        ops.push(format!("r:{:x}", BASE32 - 2 - k));
+    }
+    let mut adds = add_ops(l, rng, true);
+    if rng.chance(1, 2) && adds.len() > 2 {
+        let tail = adds.split_off(adds.len() / 2);
+        ops.extend(adds);
+        ops.push(format!("s:{m}:{m}"));
+        ops.extend(tail);
+    } else {
+        ops.extend(adds);
+    }
+    ops.extend(settings_ops(l));
+    ops
+}
+
+// ---------------------------------------------------------------------------------------------
+// generators
+// ---------------------------------------------------------------------------------------------
+fn probe_ops(keys: &[u64], rng: &mut Rng, max: usize) -> Vec<String> {
+    let mut v = vec!["q".to_string(), "l".into(), "n".into()];
+    let step = (keys.len() / max).max(1);
+    for id in keys.iter().step_by(step) {
+        v.push(format!("g:{id:x}"));
+    }
+    for id in keys.iter().take(6) {
+        v.push(format!("g:{:x}", id + 1));
+        if let Ok((z, x, y)) = pmtiles2::util::zxy(*id) {
+            v.push(format!("x:{x:x}:{y:x}:{z:x}"));
+        }
+    }
+    v.push(format!("g:{:x}", rng.spread(62)));
+    v
+}
+fn fam(k: usize) -> (&'static str, &'static str) {
+    [("sync", "sync"), ("async", "async"), ("sync", "async"), ("async", "sync")][k % 4]
+}
+
+pub fn gen(prop: &str, rng: &mut Rng, quick: bool, st: &mut Stats) -> Option<Vec<String>> {
+    let mut c: Vec<String> = Vec::new();
+    match prop {
+        "C01" | "C02" => {
+            let chk = if prop == "C01" { "chk_roundtrip" } else { "chk_valid" };
+            let sizes: Vec<usize> = if quick { vec![0, 1, 2, 3, 5, 9, 17, 40, 80, 150, 300] } else { vec![0, 1, 2, 3, 5, 9, 17, 40, 80, 150, 300, 600, 1200] };
+            let reps = if quick { 3 } else { 12 };
+            let mut k = 0usize;
+            for &n in &sizes {
+                for _ in 0..reps {
+                    let (w, r) = fam(k);
+                    k += 1;
+                    let l = gen_logical(rng, n, n <= 40 && k % 3 == 0, st);
+                    let mut ops = settings_ops(&l);
+                    ops.extend(add_ops(&l, rng, true));
+                    let keys: Vec<u64> = l.tiles.keys().copied().collect();
+                    let mut h = ops.clone();
+                    h.push(format!("s:{}:{}", &w[..1], &r[..1]));
+                    h.extend(probe_ops(&keys, rng, 60));
+                    c.push(format!("hist {w} {}", h.join(";")));
+                    if prop == "C01" {
+                        c.push(format!("{chk} {w} {r} {}", ops.join(";")));
+                    } else {
+                        c.push(format!("{chk} {w} {}", ops.join(";")));
+                    }
+                    st.bump(&format!("logical_{}", comp_tok(l.icomp)));
+                }
+            }
+            // larger archives, some forcing leaf directories: direct oracle only
+            let big: Vec<(usize, bool)> = if quick { vec![(2000, false), (6000, false)] } else { vec![(2000, false), (6000, false), (20000, false), (50000, false)] };
+            for (i, (n, b)) in big.iter().enumerate() {
+                let (w, r) = fam(i);
+                let seed = rng.next();
+                if prop == "C01" {
+                    c.push(format!("chk_roundtrip_seeded {w} {r} {seed:x} {n:x} {}", u8::from(*b)));
+                } else {
+                    c.push(format!("chk_valid_seeded {w} {seed:x} {n:x} {}", u8::from(*b)));
+                }
+            }
+            let spills: Vec<(usize, Compression)> = if quick {
+                vec![(4500, Compression::None), (9000, Compression::GZip)]
+            } else {
+                vec![(4500, Compression::None), (20000, Compression::None), (9000, Compression::GZip), (30000, Compression::GZip), (12000, Compression::Brotli), (12000, Compression::ZStd)]
+            };
+            for (i, (n, comp)) in spills.iter().enumerate() {
+                let (w, r) = fam(i + 1);
+                let seed = rng.next();
+                if prop == "C01" {
+                    c.push(format!("chk_roundtrip_spill {w} {r} {seed:x} {n:x} {}", comp_tok(*comp)));
+                } else {
+                    c.push(format!("chk_valid_spill {w} {seed:x} {n:x} {}", comp_tok(*comp)));
+                }
+                st.bump("archives_forcing_leaf_directories");
+            }
+            // one model-compared archive with leaf directories (None codec keeps it small enough)
+            {
+                let ops = seeded_spill_ops(rng.next(), 4300, Compression::None);
+                let m = if quick { "sync" } else { "async" };
+                c.push(format!("hist {m} {ops};s:{}:{};l;n;q", &m[..1], &m[..1]));
+            }
+        }
+        "C03" => {
+            let n = if quick { 48 } else { 400 };
+            for k in 0..n {
+                let o = foreign_opts(rng, k, quick);
+                let f = gen_foreign(rng, &o, st);
+                let (_, r) = fam(k);
+                let hexb = hex_bytes(&f.bytes);
+                c.push(format!("chk_foreign {r} {hexb}"));
+                if o.n <= 400 {
+                    let keys: Vec<u64> = f.tiles.keys().copied().collect();
+                    let mut h = vec![format!("o:{}:u_u:{hexb}", &r[..1])];
+                    h.extend(probe_ops(&keys, rng, 40));
+                    c.push(format!("hist {r} {}", h.join(";")));
+                }
+            }
+            for name in ["stamen_toner(raster)CC-BY+ODbL_z3.pmtiles", "protomaps(vector)ODbL_firenze.pmtiles"] {
+                c.push(format!("chk_fixture {}", hex_bytes(name.as_bytes())));
+            }
+            if !quick {
+                c.push(format!("chk_fixture {}", hex_bytes(b"protomaps_vector_planet_odbl_z10_without_data.pmtiles")));
+            }
+            // single-directory lookup
+            for i in 0..(if quick { 150 } else { 2000 }) {
+                let es = valid_entries(rng, 1 + (i % 30), true, i % 3 == 0, st);
+                let et = entries_tok(&es);
+                let e = es[rng.below(es.len() as u64) as usize];
+                for id in [e.tile_id, e.tile_id + u64::from(e.run_length), (e.tile_id + u64::from(e.run_length)).saturating_sub(1), e.tile_id.saturating_sub(1), rng.spread(62)] {
+                    c.push(format!("dir_find {et} {id:x}"));
+                    c.push(format!("chk_dir_find {et} {id:x}"));
+                }
+            }
+        }
+        "C04" | "C10" => {
+            // exhaustive short histories over 3 adjacent ids x 3 colliding contents
+            let ids = [7u64, 8, 9];
+            let contents = ["aa", "aa00", "ab"];
+            for mode in ["sync", "async"] {
+                let m = &mode[..1];
+                let mut alphabet: Vec<String> = Vec::new();
+                for id in ids {
+                    for ct in contents {
+                        alphabet.push(format!("a:{id:x}:{ct}"));
+                    }
+                    alphabet.push(format!("r:{id:x}"));
+                }
+                alphabet.push(format!("s:{m}:{m}"));
+                let len = if quick { 3 } else { 4 };
+                let total = alphabet.len().pow(len as u32);
+                for code in 0..total {
+                    if mode == "async" && code % 3 != 0 && quick {
+                        continue;
+                    }
+                    let mut cc = code;
+                    let mut seq: Vec<String> = Vec::new();
+                    for _ in 0..len {
+                        seq.push(alphabet[cc % alphabet.len()].clone());
+                        cc /= alphabet.len();
+                    }
+                    let ops = seq.join(";");
+                    if prop == "C04" {
+                        c.push(format!("chk_hist_map {mode} {ops}"));
+                    } else {
+                        c.push(format!("chk_dedup {mode} {ops}"));
+                    }
+                    if code % (if quick { 7 } else { 23 }) == 0 {
+                        // the same history on the model, with probes after every step
+                        let mut h: Vec<String> = Vec::new();
+                        for o in &seq {
+                            h.push(o.clone());
+                            h.push("g:7;g:8;g:9;l;n;p".into());
+                        }
+                        c.push(format!("hist {mode} {}", h.join(";")));
+                    }
+                    st.bump("histories_exhaustive");
+                }
+            }
+            // long random histories, optionally starting from a foreign archive
+            let nh = if quick { 24 } else { 200 };
+            for k in 0..nh {
+                let mode = if k % 2 == 0 { "sync" } else { "async" };
+                let m = &mode[..1];
+                let len = if k % 4 == 3 { if quick { 600 } else { 5000 } } else { rng.range(10, 120) as usize };
+                let pool = content_pool(rng, 6, false);
+                let idpool = gen_ids(rng, 10, k % 3 == 0);
+                let mut ops: Vec<String> = Vec::new();
+                if k % 3 == 1 {
+                    let o = foreign_opts(rng, k, true);
+                    let f = gen_foreign(rng, &ForeignOpts { n: o.n.min(60), ..o }, st);
+                    ops.push(format!("o:{m}:u_u:{}", hex_bytes(&f.bytes)));
+                }
+                for _ in 0..len {
+                    let id = idpool[rng.below(idpool.len() as u64) as usize];
+                    ops.push(match rng.below(12) {
+                        0..=5 => format!("a:{id:x}:{}", hex_bytes(&pool[rng.below(pool.len() as u64) as usize])),
+                        6..=8 => format!("r:{id:x}"),
+                        9 => format!("g:{id:x}"),
+                        10 if len < 200 || rng.chance(1, 20) => format!("s:{m}:{m}"),
+                        _ => "l".to_string(),
+                    });
+                }
+                let opss = ops.join(";");
+                c.push(format!("{} {mode} {opss}", if prop == "C04" { "chk_hist_map" } else { "chk_dedup" }));
+                if len <= 120 {
+                    let mut h: Vec<String> = Vec::new();
+                    for o in &ops {
+                        h.push(o.clone());
+                        if !o.starts_with("g") && o != "l" {
+                            h.push("l;n;p".into());
+                        }
+                    }
+                    c.push(format!("hist {mode} {}", h.join(";")));
+                }
+                st.bump("histories_random");
+            }
+            if prop == "C10" {
+                // duplication patterns
+                for k in 0..(if quick { 20 } else { 120 }) {
+                    let mode = if k % 2 == 0 { "sync" } else { "async" };
+                    let n = [5usize, 30, 200, 1000][k % 4];
+                    let l = gen_logical(rng, n, false, st);
+                    let mut ops = add_ops(&l, rng, true);
+                    if k % 3 == 0 {
+                        // duplicates between reader-backed and in-memory tiles
+                        let m = &mode[..1];
+                        let half = ops.split_off(ops.len() / 2);
+                        ops.push(format!("s:{m}:{m}"));
+                        ops.extend(half);
+                    }
+                    c.push(format!("chk_dedup {mode} {}", ops.join(";")));
+                    if n <= 30 {
+                        let m = &mode[..1];
+                        c.push(format!("hist {mode} {};s:{m}:{m};l;n", ops.join(";")));
+                    }
+                    st.bump("duplication_patterns");
+                }
+                // non-deduplicated foreign source, rewritten
+                for k in 0..(if quick { 8 } else { 40 }) {
+                    let o = ForeignOpts { n: 30 + k, depth: (k % 3) as u32, icomp: 1 + (k % 4) as u8, permute: k % 2 == 0, unordered: true, empty_meta: false, merge_runs: k % 3 != 0 };
+                    let f = gen_foreign(rng, &o, st);
+                    let mode = if k % 2 == 0 { "sync" } else { "async" };
+                    let m = &mode[..1];
+                    c.push(format!("chk_hist_then_dedup {mode} o:{m}:u_u:{}", hex_bytes(&f.bytes)));
+                    c.push(format!("hist {mode} o:{m}:u_u:{};s:{m}:{m};l;n", hex_bytes(&f.bytes)));
+                }
+            }
+        }
+        "C06" => {
+            let comps = ALL_COMP;
+            let mut k = 0usize;
+            // lists steered around the 16257-byte window
+            for &comp in &comps {
+                let targets: Vec<usize> = if quick { vec![16200, 16257, 16258, 16300, 16384, 16400] } else { vec![16000, 16200, 16250, 16256, 16257, 16258, 16259, 16300, 16383, 16384, 16385, 16500, 20000, 40000] };
+                for &t in &targets {
+                    let es = entries_for_size(rng, comp, t, st);
+                    for delta in [-1i64, 0, 1] {
+                        let n = (es.len() as i64 + delta).max(0) as usize;
+                        if n > es.len() {
+                            continue;
+                        }
+                        let mode = if k % 2 == 0 { "sync" } else { "async" };
+                        let pos = [0u64, 127, 1, 5000][k % 4];
+                        let ss = ["-", "1", "7", "1000", "fffff"][k % 5];
+                        k += 1;
+                        let et = entries_tok(&es[..n]);
+                        c.push(format!("chk_spill {mode} {} {ss} {pos:x} {et}", comp_tok(comp)));
+                        if comp == Compression::None || k % 4 == 0 {
+                            let pre = hex_bytes(&vec![0xEEu8; pos as usize]);
+                            c.push(format!("wdirs {mode} {} {ss} {pos:x} {pre} {et}", comp_tok(comp)));
+                        }
+                        st.bump("lists_near_window");
+                    }
+                }
+            }
+            // 4-bytes-per-entry lists: exact control over the plain size
+            for n in [4063usize, 4064, 4065, 4095, 4096, 4097] {
+                let es = tiny_entries(n);
+                for (i, ss) in ["-", "1", "2", "4096", "4097"].iter().enumerate() {
+                    let mode = if (n + i) % 2 == 0 { "sync" } else { "async" };
+                    c.push(format!("chk_spill {mode} none {ss} 0 {}", entries_tok(&es)));
+                    c.push(format!("wdirs {mode} none {ss} 0 - {}", entries_tok(&es)));
+                }
+            }
+            // small and empty lists, every start size
+            for n in [0usize, 1, 2, 50] {
+                let es = valid_entries(rng, n, false, true, st);
+                for ss in ["-", "1", "3"] {
+                    for &comp in &comps {
+                        c.push(format!("chk_spill sync {} {ss} 0 {}", comp_tok(comp), entries_tok(&es)));
+                        c.push(format!("wdirs async {} {ss} 0 - {}", comp_tok(comp), entries_tok(&es)));
+                    }
+                }
+            }
+            // large lists with small start sizes (several doublings)
+            let bigs: Vec<usize> = if quick { vec![12000] } else { vec![12000, 40000, 100000] };
+            for n in bigs {
+                let es = valid_entries(rng, n, false, false, st);
+                for (i, ss) in ["1", "2", "64", "-"].iter().enumerate() {
+                    let comp = comps[i % 4];
+                    let mode = if i % 2 == 0 { "sync" } else { "async" };
+                    c.push(format!("chk_spill {mode} {} {ss} 0 {}", comp_tok(comp), entries_tok(&es)));
+                    st.bump("lists_large_small_start");
+                }
+                if n <= 12000 {
+                    c.push(format!("wdirs sync none 3 0 - {}", entries_tok(&es)));
+                }
+            }
+            // whole archives that spill
+            for (i, comp) in [Compression::None, Compression::GZip].iter().enumerate() {
+                let (w, _) = fam(i);
+                c.push(format!("chk_valid_spill {w} {:x} {:x} {}", rng.next(), if *comp == Compression::None { 4500 } else { 9000 }, comp_tok(*comp)));
+            }
+        }
+        "C11" => {
+            let n = if quick { 20 } else { 120 };
+            for k in 0..n {
+                let mode = if k % 2 == 0 { "sync" } else { "async" };
+                // foreign and library-written archives
+                let (bytes, pts): (Vec<u8>, Vec<u64>) = if k % 3 == 2 {
+                    let ops = if k % 6 == 2 { seeded_spill_ops(rng.next(), 4400, Compression::None) } else { seeded_ops(rng.next(), 10 + 30 * (k % 5), false, None) };
+                    let b = run_to_bytes(mode, &ops).expect("write");
+                    let v = spec::parse(&b, true).expect("own archive valid");
+                    let mut pts: Vec<u64> = v.root.iter().filter(|e| e.run == 0).flat_map(|e| [e.id]).collect();
+                    pts.extend(v.tile_entries.iter().take(4).flat_map(|e| [e.id, e.id + u64::from(e.run) - 1]));
+                    (b, pts)
+                } else {
+                    let mut o = foreign_opts(rng, k + 3, true);
+                    o.n = o.n.min(300);
+                    let f = gen_foreign(rng, &o, st);
+                    let mut pts = f.leaf_first_ids.clone();
+                    pts.extend(f.run_bounds.iter().take(8));
+                    (f.bytes, pts)
+                };
+                let mut pts = pts;
+                pts.truncate(6);
+                if pts.is_empty() {
+                    pts.push(3);
+                }
+                let hexb = hex_bytes(&bytes);
+                let small = bytes.len() < 20_000;
+                for (j, rg) in ranges_for(rng, &pts).iter().enumerate() {
+                    c.push(format!("chk_partial {mode} {} {hexb}", range_tok(rg)));
+                    if small && j % 5 == 0 {
+                        c.push(format!("hist {mode} o:{}:{}:{hexb};l;n;g:{:x};g:0", &mode[..1], range_tok(rg), pts[0]));
+                    }
+                    st.bump("ranges");
+                }
+            }
+        }
+        "C16" => {
+            let n = if quick { 30 } else { 250 };
+            for k in 0..n {
+                let mode = if k % 2 == 0 { "sync" } else { "async" };
+                let size = [0usize, 1, 4, 20, 100, 500][k % 6];
+                let l = gen_logical(rng, size, false, st);
+                let mut a = settings_ops(&l);
+                a.extend(add_ops(&l, rng, false));
+                let mut b = add_ops(&l, rng, true);
+                b.extend(settings_ops(&l));
+                let d = detour_ops(&l, rng, mode);
+                let (sa, sb, sd) = (a.join(";"), b.join(";"), d.join(";"));
+                c.push(format!("chk_canonical {mode} {sa} {sb}"));
+                c.push(format!("chk_canonical {mode} {sa} {sd}"));
+                c.push(format!("chk_rewrite {mode} {sa}"));
+                if size <= 100 {
+                    let m = &mode[..1];
+                    c.push(format!("hist {mode} {sd};w:{m}:0:-"));
+                    c.push(format!("hist {mode} {sa};s:{m}:{m};w:{m}:0:-"));
+                }
+                if k % 5 == 0 {
+                    c.push(format!("chk_xproc {mode} {sb}"));
+                }
+                st.bump("history_pairs");
+            }
+            // archives with leaf directories
+            let ops = seeded_spill_ops(rng.next(), 4400, Compression::None);
+            c.push(format!("chk_rewrite sync {ops}"));
+            let ops2 = seeded_spill_ops(rng.next(), 9000, Compression::GZip);
+            c.push(format!("chk_rewrite async {ops2}"));
+        }
+        _ => return None,
+    }
+    Some(c)
+}
+
+pub fn run_chk(toks: &[&str]) -> Option<String> {
+    Some(match toks {
+        ["chk_roundtrip", w, r, ops] => guard_chk(|| chk_roundtrip(w, r, ops)),
+        ["chk_roundtrip_seeded", w, r, seed, n, big] => {
+            let ops = seeded_ops(unhex_u64(seed), unhex_u64(n) as usize, *big == "1", None);
+            guard_chk(|| chk_roundtrip(w, r, &ops))
+        }
+        ["chk_roundtrip_spill", w, r, seed, n, comp] => {
+            let ops = seeded_spill_ops(unhex_u64(seed), unhex_u64(n) as usize, parse_comp(comp));
+            guard_chk(|| chk_roundtrip(w, r, &ops))
+        }
+        ["chk_valid", w, ops] => guard_chk(|| chk_valid(w, ops)),
+        ["chk_valid_seeded", w, seed, n, big] => {
+            let ops = seeded_ops(unhex_u64(seed), unhex_u64(n) as usize, *big == "1", None);
+            guard_chk(|| chk_valid(w, &ops))
+        }
+        ["chk_valid_spill", w, seed, n, comp] => {
+            let ops = seeded_spill_ops(unhex_u64(seed), unhex_u64(n) as usize, parse_comp(comp));
+            guard_chk(|| {
+                chk_valid(w, &ops)?;
+                let (st, _) = build(w, &ops)?;
+                let b = write_bytes(st)?;
+                let v = spec::parse(&b, true)?;
+                if v.depth == 0 {
+                    return Err("harness: this archive was meant to need leaf directories".into());
+                }
+                Ok(())
+            })
+        }
+        ["chk_dedup", mode, ops] => guard_chk(|| chk_dedup(mode, ops)),
+        ["chk_hist_then_dedup", mode, ops] => guard_chk(|| {
+            // open a (non-deduplicated) foreign archive and write it again
+            let f: Vec<&str> = ops.split(':').collect();
+            let bytes = unhex_bytes(f[3]);
+            let v = spec::parse(&bytes, false)?;
+            let all = spec::all_tiles(&v, 1_000_000)?;
+            let mut want = BTreeMap::new();
+            for (id, ol) in all {
+                want.insert(id, spec::tile_bytes(&bytes, &v.header, ol)?.to_vec());
+            }
+            let st = reopen(*mode == "async", bytes.clone(), FULL)?;
+            let out = write_bytes(st)?;
+            chk_dedup_bytes(&out, &want)
+        }),
+        ["chk_hist_map", mode, ops] => guard_chk(|| chk_hist_map(mode, ops)),
+        ["chk_foreign", mode, b] => {
+            let b = unhex_bytes(b);
+            guard_chk(|| chk_foreign(mode, &b))
+        }
+        ["chk_fixture", name] => {
+            let name = String::from_utf8(unhex_bytes(name)).unwrap();
+            guard_chk(|| chk_fixture(&name))
+        }
+        ["chk_dir_find", es, id] => {
+            let (es, id) = (parse_entries(es), unhex_u64(id));
+            guard_chk(|| chk_dir_find(&es, id))
+        }
+        ["chk_partial", mode, rg, b] => {
+            let (rg, b) = (parse_range(rg), unhex_bytes(b));
+            guard_chk(|| chk_partial(mode, rg, &b))
+        }
+        ["chk_spill", mode, c, ss, pos, es] => {
+            let start = if *ss == "-" { None } else { Some(unhex_u64(ss) as usize) };
+            let (c, pos, es) = (parse_comp(c), unhex_u64(pos), parse_entries(es));
+            guard_chk(|| chk_spill(mode, c, start, pos, &es))
+        }
+        ["chk_canonical", mode, a, b] => guard_chk(|| chk_canonical(mode, a, b)),
+        ["chk_rewrite", mode, ops] => guard_chk(|| chk_rewrite(mode, ops)),
+        ["chk_xproc", mode, ops] => guard_chk(|| chk_xproc(mode, ops)),
+        _ => return None,
+    })
 }
